@@ -127,8 +127,8 @@ class ArrayMap(Map):
         collection = []
 
         for prog in chain([ebpf], ebpf.subprograms):
+            unique = set()  # a name overridden in a subclass is one variable
             for cls in prog.__class__.__mro__:
-                unique = set()
                 for k, v in cls.__dict__.items():
                     if isinstance(v, ArrayGlobalVarDesc) and v.map is self \
                             and k not in unique:
